@@ -71,7 +71,7 @@ Section Check.
         if sh then SVNotOk else
         if negb (sc_inv t) then SVInv else
         if negb (delete_guardb env fo ko sch p) then SVGuard else
-        match delete_node_st env ko sh sch t p with
+        match delete_node_st env fo ko sh sch t p with
         | (t', Ok _) => sc_compare t t' (fun m => spec_delete sc_sem m p)
         | _ => SVNotOk
         end
